@@ -365,6 +365,43 @@ def gen_ctr(seed, tier, cap_for, c06=False):
             sc.ctr_set_tweak(kind, 0, sc.rb_nz(8 if kind == "mantis" else bs))
             sc.ctr_encrypt(kind, 0, sc.rb(bs))
             sc.ctr_cleanup(kind, 0)
+            # 4c. unconstrained API fuzz: ANY public CTR function with valid or invalid arguments in ANY
+            #     order (plain key then tweak change, re-keying in the other family, tweak on an unkeyed
+            #     object ...): the contract models all of it, so every back end must agree with it
+            for i in range(6 if thorough else 2):
+                sc.reset("ctr-fuzz-%s-%d" % (kind, i))
+                sc.ctr_init(kind, 0, cap=cap)
+                tl = 8 if kind == "mantis" else bs
+                for step in range(40 if thorough else 24):
+                    r = sc.rng.random()
+                    if r < 0.12:
+                        sc.ctr_set_key(kind, 0, valid_key(sc, kind), rounds=5 + sc.rng.randrange(4))
+                    elif r < 0.2 and kind != "mantis":
+                        sc.ctr_set_tweaked_key(kind, 0, valid_key(sc, kind, True))
+                    elif r < 0.34:
+                        ch = sc.rng.random()
+                        if ch < 0.6:
+                            sc.ctr_set_tweak(kind, 0, sc.rb_nz(tl if kind == "mantis" else sc.rng.randrange(1, bs + 1)))
+                        elif ch < 0.8:
+                            sc.ctr_set_tweak(kind, 0, None, tl)
+                        else:
+                            sc.ctr_set_tweak(kind, 0, sc.rb(tl + 1), sc.rng.choice((0, tl + 1)))
+                    elif r < 0.46:
+                        ch = sc.rng.random()
+                        if ch < 0.7:
+                            sc.ctr_set_counter(kind, 0, sc.rb(sc.rng.randrange(0, bs + 1)))
+                        elif ch < 0.85:
+                            sc.ctr_set_counter(kind, 0, None, sc.rng.randrange(0, bs + 1))
+                        else:
+                            sc.ctr_set_counter(kind, 0, sc.rb(bs + 1), bs + 1)
+                    elif r < 0.52:
+                        sc.ctr_set_key(kind, 0, sc.rb(sc.rng.choice((0, bs - 1, 3 * bs + 1))), rounds=sc.rng.choice((4, 6, 9)))
+                    elif r < 0.55:
+                        sc.ctr_encrypt(kind, 0, None, n=3)
+                    else:
+                        n = sc.rng.choice([0, 1, 2, bs - 1, bs, bs + 1, 2 * bs + 3, 4 * bs, 5 * bs + 1, 8 * bs, 9 * bs + 7])
+                        sc.ctr_encrypt(kind, 0, sc.rb(n), ip=1 if (n and sc.rng.random() < 0.25) else None)
+                sc.ctr_cleanup(kind, 0)
             # 5. live but never keyed object (implementation-defined, must still be back-end independent)
             sc.reset("ctr-unkeyed-%s" % kind)
             sc.ctr_init(kind, 0, cap=cap)
